@@ -58,11 +58,12 @@ def run(ctx):
     ctx.decided += [
         'C17.a IonQ QIS gate dictionaries == the Cirq gate up to global phase (probe + source-derived exponents); handlers without a generic form return None on fall-through; '
         'native gates pass their own parameters under the documented field names',
+        'C17.e measurement metadata chunks reassemble losslessly; pauliexp payloads apply the right Pauli to the right target with the right evolution time',
         'C17.b _serialize_op: parameterized gates and gate-less operations raise first; every path ends in a dispatched result or ValueError; circuit/qubit validation precedes serialization',
         'C17.c dispatch table: each gate family is mapped to the handler that emits that family\'s mnemonics',
         'C17.d AQT: get_op_string, the JSON writer, the legacy reader and the simulator share one op-string table and one positional layout',
     ]
-    ctx.not_decided += ['result histogram decoding and bit order', 'pauliexp semantics', 'Pasqal payload beyond being the JSON of the submitted circuit', 'job/service plumbing']
+    ctx.not_decided += ['result histogram decoding and bit order', 'Pasqal payload beyond being the JSON of the submitted circuit', 'job/service plumbing']
     ser = repo.cls('cirq_ionq.serializer.Serializer')
     m = ser.mod
     init = ser.methods['__init__']
@@ -184,6 +185,71 @@ def run(ctx):
     ph = ms.methods.get('phases')
     ok = ph is not None and any(isinstance(r, ast.Return) and ast.unparse(r.value).replace(' ', '') == '[self.phi0,self.phi1]' for r in ast.walk(ph))
     ctx.ob('C17.a', 'cirq_ionq.ionq_native_gates.MSGate.phases', ok, '' if ok else 'MSGate.phases is not [phi0, phi1]', ms.mod.rel, ms.node.lineno)
+
+    # ------------------------------------------------------------------ C17.e
+    ctx.rule('C17.e', 'measurement metadata (finite-domain interpretation): the chunks written by _serialize_measurements, concatenated in order, are exactly '
+             'key<US>targets joined by <RS> (nothing dropped or reordered), each at most 40 characters and named measurement<i>; pauliexp payloads carry the Pauli '
+             'string over the operation\'s targets in IonQ\'s little-endian term order with time pi(e_neg - e_pos)/2', floor=2, style='FDX')
+    smf = ser.methods.get('_serialize_measurements')
+    if smf is None:
+        raise AnalysisError('Serializer._serialize_measurements vanished')
+    bad = None
+    cases = [[('a', '0')], [('bell pair 0', '0,1'), ('bell pair 1', '2,3'), ('ancilla register (flag qubits)', '4,5,6')],
+             [('k' * 35, '0,1,2,3'), ('m m', '7')], [('x', ','.join(str(i) for i in range(30)))]]
+    for case in cases:
+        ops_ = [{'key': k, 'targets': t} for k, t in case]
+        it = fdx.NumInterp({'self': {'atol': 1e-8}, 'meas_ops': ops_})
+        try:
+            d = it.call(smf)
+        except fdx.Raised:
+            continue
+        except fdx.Unsupported as ex:
+            raise AnalysisError(f'cannot interpret _serialize_measurements: {ex}')
+        want = chr(30).join(k + chr(31) + t for k, t in case)
+        keys = sorted(d, key=lambda k: int(k[len('measurement'):]) if k.startswith('measurement') and k[len('measurement'):].isdigit() else -1)
+        got = ''.join(d[k] for k in keys)
+        if got != want:
+            bad = bad or f'keys {[k for k, _ in case]}: the chunks reassemble to {got!r}, not {want!r}'
+        if any(len(v) > 40 for v in d.values()) or any(not k.startswith('measurement') for k in d):
+            bad = bad or 'a chunk exceeds 40 characters or is not named measurement<i>'
+    ctx.ob('C17.e', 'Serializer._serialize_measurements:lossless-chunks', bad is None, bad or '', m.rel, smf.lineno)
+    pf = ser.methods.get('_serialize_pauli_string_phasor_gate')
+    if pf is None:
+        raise AnalysisError('Serializer._serialize_pauli_string_phasor_gate vanished')
+    P1 = {'I': I2, 'X': X, 'Y': Y, 'Z': Z}
+    bad = None
+    for mask, tg, en, ep in (([3, 2], [0, 1], 0.3, -0.1), ([3, 2, 0], [0, 1, 2], 0.25, 0.0), ([0, 1, 3], [4, 2, 7], 0.5, 0.1), ([1, 0, 0, 2], [0, 1, 2, 3], 0.2, -0.2), ([2], [5], 0.4, 0.0)):
+        gate_obj = {'dense_pauli_string': {'pauli_mask': mask, 'coefficient': 1 + 0j}, 'exponent_neg': en, 'exponent_pos': ep}
+        it = fdx.NumInterp({'self': {'atol': 1e-8}, 'gate': gate_obj, 'targets': tg})
+        try:
+            d = it.call(pf)
+        except (fdx.Unsupported, fdx.Raised) as ex:
+            raise AnalysisError(f'cannot interpret _serialize_pauli_string_phasor_gate: {ex}')
+        # reference operator on the targets (big-endian over `tg`): product of paulis given by mask
+        names = ['IXYZ'[k] for k in mask]
+        if not d:
+            if any(c != 'I' for c in names) and abs(en - ep) > 1e-12:
+                bad = bad or f'mask {names}: nothing is sent for a non-trivial evolution'
+            continue
+        if d.get('gate') != 'pauliexp' or len(d.get('terms', [])) != 1:
+            bad = bad or f'mask {names}: payload {d}'
+            continue
+        term = d['terms'][0]
+        tgs = list(d.get('targets', []))
+        if len(term) != len(tgs):
+            bad = bad or f'mask {names}: term {term!r} and targets {tgs} differ in length'
+            continue
+        # IonQ: little-endian term string -> character j acts on targets[len-1-j]
+        sent = {}
+        for j, ch in enumerate(term):
+            sent[tgs[len(tgs) - 1 - j]] = ch
+        want = {q: c for q, c in zip(tg, names)}
+        if {q: c for q, c in sent.items() if c != 'I'} != {q: c for q, c in want.items() if c != 'I'}:
+            bad = bad or f'mask {names} on targets {tg}: payload terms={term!r} targets={tgs} applies {sent}'
+        t_want = np.pi * (en - ep) / 2
+        if abs(d.get('time', 0) - t_want) > 1e-12 or list(d.get('coefficients', [])) != [1.0]:
+            bad = bad or f'mask {names}: time/coefficients {d.get("time")}, {d.get("coefficients")} (expected {t_want}, [1.0])'
+    ctx.ob('C17.e', 'Serializer._serialize_pauli_string_phasor_gate:operator', bad is None, bad or '', m.rel, pf.lineno)
 
     # ------------------------------------------------------------------ C17.c
     ctx.rule('C17.c', 'dispatch agreement: the handler registered for family F is the one that emits F\'s mnemonics (x/v/rx for X, z/s/t/rz for Z, ...)', floor=10, style='WR')
